@@ -23,7 +23,7 @@ def run(ctx):
     if not ok_h:
         return
     quick = ctx.tier == "quick"
-    results = engine.run_programs(ctx, 30 if quick else 300, 3 if quick else 8, ["canon"], cu=True, tag="c07")
+    results = engine.run_programs(ctx, 30 if quick else 150, 3 if quick else 6, ["canon"], cu=True, tag="c07")
     ctx.cov["programs"] = engine.status_counts(results)
     engine.describe_program_failures(ctx, results)
     ctx.cov["rule"] = ("as C01, plus per fact set up to 4 close_until runs: conditions drawn from facts of the directly closed model "
